@@ -413,24 +413,48 @@ open NumAlg Optyx.Py
 
 /-! ### monotone views satisfy the shortcut invariant -/
 
-theorem coversAll_true {V : List String} {vv : VVar} (h : coversAll V vv = .ok (some true)) :
-    vv.vars.length = V.length ∧ (vv.vars.map (·.name)).head? = V.head? ∧ V ≠ [] := by
+theorem alignedFrom_spec {V : List String} : ∀ (l : List Var) (i : Nat), alignedFrom V l i = true →
+    ∀ k (hk : k < l.length), V[i + k]? = some (l[k]).name
+  | [], _, _, k, hk => by simp at hk
+  | v :: t, i, h, k, hk => by
+    simp only [alignedFrom, Bool.and_eq_true, beq_iff_eq] at h
+    cases k with
+    | zero => simpa using varIndex_some h.1
+    | succ k =>
+      have := alignedFrom_spec t (i + 1) h.2 k (by simpa using hk)
+      simpa [Nat.add_assoc, Nat.add_comm 1 k] using this
+
+/-- the repaired guard checks every position: when it passes, the vector *is* the variable list -/
+theorem coversAll_names {V : List String} {vv : VVar} (h : coversAll V vv = .ok (some true)) :
+    vv.vars.map (·.name) = V := by
   unfold coversAll at h
   split at h
   · rename_i hlen
     have hlen' : vv.vars.length = V.length := by simpa using hlen
-    split at h
-    · simp at h
-    · rename_i v vs hvs
-      simp only [Except.ok.injEq, Option.some.injEq, beq_iff_eq] at h
-      have h0 := varIndex_some h
-      refine ⟨hlen', ?_, ?_⟩
-      · rw [hvs]
-        cases V with
-        | nil => simp at h0
-        | cons x V' => simpa using h0.symm
-      · intro hV; subst hV; simp at h0
+    simp only [Except.ok.injEq, Option.some.injEq] at h
+    apply List.ext_getElem?
+    intro k
+    by_cases hk : k < vv.vars.length
+    · have := alignedFrom_spec vv.vars 0 h k hk
+      simp only [Nat.zero_add] at this
+      simp [List.getElem?_map, List.getElem?_eq_getElem hk, this]
+    · have h1 : (vv.vars.map (·.name))[k]? = none := by simp [List.getElem?_eq_none_iff]; omega
+      have h2 : V[k]? = none := by simp [List.getElem?_eq_none_iff]; omega
+      rw [h1, h2]
   · simp at h
+
+theorem coversAll_true {V : List String} {vv : VVar} (h : coversAll V vv = .ok (some true)) :
+    vv.vars.length = V.length ∧ (vv.vars.map (·.name)).head? = V.head? := by
+  have hn := coversAll_names h
+  exact ⟨by rw [← hn]; simp, by rw [hn]⟩
+
+/-- with the repaired guard the invariant of the shortcuts holds for every vector (no monotonicity needed) -/
+theorem vecInv_always (V : List String) (vv : VVar) : vecInv V vv = true := by
+  unfold vecInv
+  split
+  · rename_i hc
+    simpa using coversAll_names hc
+  · rfl
 
 /-- a `VectorVariable` operand whose element names are strictly increasing or strictly decreasing
     in the order that strictly sorts the problem variables, all of them problem variables,
@@ -445,7 +469,7 @@ theorem vecInv_of_monotone {lt : String → String → Prop}
   unfold vecInv
   split
   · rename_i hc
-    obtain ⟨hlen, hhead, _⟩ := coversAll_true hc
+    obtain ⟨hlen, hhead⟩ := coversAll_true hc
     have hlen' : (vv.vars.map (·.name)).length = V.length := by simpa using hlen
     rcases hmono with hm | hm
     · simpa using eq_of_sorted_subset hirr hasym hm hV hsub hlen'
